@@ -195,6 +195,10 @@ pub struct Sim {
     /// set when an instant did not quiesce: the code under test keeps doing things without time
     /// passing (e.g. an unbounded retry loop with a zero delay). Sticky: no further polling.
     pub livelock: bool,
+    /// When set, `spawn_call` polls the response future through a reference and keeps the
+    /// resolved future object alive for this many ms before dropping it (a caller that holds the
+    /// future in a pinned local, a slot table or a struct field does exactly that).
+    pub hold_resolved_ms: Option<u64>,
 }
 
 const SPIN_CAP: u32 = 3;
@@ -209,6 +213,7 @@ impl Sim {
             completed: 0,
             unexpected_panics: Vec::new(),
             livelock: false,
+            hold_resolved_ms: None,
         }
     }
 
@@ -232,13 +237,19 @@ impl Sim {
     {
         let log = self.log.clone();
         let idx = self.tasks.len();
+        let hold = self.hold_resolved_ms;
         self.spawn(async move {
-            let r = f.await;
+            let mut f = Box::pin(f);
+            let r = f.as_mut().await;
             log.push(Ev::Resolve {
                 t: now(),
                 task: idx,
                 out: map(r),
             });
+            if let Some(h) = hold {
+                tokio::time::sleep(std::time::Duration::from_millis(h)).await;
+            }
+            drop(f);
         })
     }
 
